@@ -187,6 +187,27 @@ def run_case(ctx, which, case):
                           traceback.format_exc()[-1200:])
     if which == 'C01' and ctx.evaluations % 3 == 0:
         check_sectional(ctx, case, spec, order)
+    if which == 'C02' and not case.get('then') and case.get('split') is None and ctx.evaluations % 2 == 0:
+        # what the platforms' own resolvers hand back (and leave in report.result) says 'correct' by the same rule
+        import contextlib, io
+        from pedal.environments import gradescope as _gs
+        for env_name, env_resolve in (('gradescope', _gs.resolve), ('gradescope-single', _gs.single_resolve), ('full', full.resolve)):
+            try:
+                report2, objs2 = reports.build(spec, order)
+                with contextlib.redirect_stdout(io.StringIO()):
+                    final2 = env_resolve(report2)
+                if final2 is None:
+                    final2 = report2.result
+                problems2, e2 = model.check(report2, final2, which=('C02',), requested=[dict(s_) for s_ in spec['suppressions']])
+                ctx.count('platform_resolvers_checked')
+                for prop, key, detail in problems2:
+                    if prop == 'C02':
+                        ctx.violation(key.replace('C02|', 'C02|%s-resolver|' % env_name, 1), case, detail)
+            except model.Unmodelled:
+                pass
+            except Exception as ex:
+                ctx.count('platform_resolve_raised_(C01 territory)')
+                ctx.seen('platform_resolve_errors', '%s:%s@%s' % (env_name, type(ex).__name__, site_of(ex)))
     if which == 'C03' and not case.get('then') and case.get('split') is None:
         # the resolver that reports every feedback (GradeScope's): the score is the same sum
         try:
